@@ -81,8 +81,16 @@ func (w *world) write(m *pgModel) {
 
 var opNames = []string{"new", "fetch", "write", "unpin", "flush", "flushall", "dealloc-wait", "dealloc-nowait"}
 
-func (w *world) step(allowCleanNew bool) {
-	op := vf.Choose(8)
+func (w *world) step(allowCleanNew bool) { w.stepOf(allowCleanNew, nil) }
+
+// stepOf: one operation out of the given menu (nil = all eight)
+func (w *world) stepOf(allowCleanNew bool, menu []int) {
+	op := 0
+	if menu == nil {
+		op = vf.Choose(8)
+	} else {
+		op = menu[vf.Choose(len(menu))]
+	}
 	vf.Note("op", opNames[op])
 	switch op {
 	case 0: // new page
@@ -132,6 +140,9 @@ func (w *world) step(allowCleanNew bool) {
 			dirty = true // a page that never reached the disk is released dirty (what every caller in the repo does)
 		}
 		w.bpm.UnpinPage(m.id, dirty)
+		if dirty {
+			m.touched = false // the modification has been reported; another holder of the page may release it clean
+		}
 		m.pins--
 		if m.pins == 0 {
 			m.touched = false
@@ -176,6 +187,33 @@ func history(pool, k int, virtual bool, allowCleanNew bool) {
 		}
 	}
 }
+
+// shared pins: starts from a page that is on disk and clean, then k operations out of {new, fetch, write,
+// unpin}: several holders of one page, one reports its modification (dirty unpin), the others release clean
+func sharedPins(pool, k int) {
+	w := newWorld(pool, false)
+	pg := w.bpm.NewPage()
+	m := &pgModel{id: pg.GetPageID(), shadow: new([4096]byte), alive: true, pins: 1, handle: pg, fresh: true}
+	w.pages = append(w.pages, m)
+	w.write(m)
+	w.bpm.UnpinPage(m.id, true)
+	m.pins, m.touched, m.handle, m.fresh = 0, false, nil, false
+	w.bpm.FlushPage(m.id)
+	for i := 0; i < k; i++ {
+		w.stepOf(false, []int{0, 1, 2, 3})
+	}
+	for _, m := range w.pages {
+		if m.alive && (m.pins > 0 || w.pinnedPages() < w.pool) {
+			pg := w.bpm.FetchPage(m.id)
+			vf.Assert(pg != nil, "final fetch succeeds")
+			w.checkContent(pg, m, "final audit: page holds its latest bytes")
+			w.bpm.UnpinPage(m.id, false)
+		}
+	}
+}
+
+func VF_C13_Shared_P1_K7() { sharedPins(1, 7) }
+func VF_C13_Shared_P2_K7() { sharedPins(2, 7) }
 
 func VF_C13_File_P1_K4()  { history(1, 4, false, false) }
 func VF_C13_File_P2_K4()  { history(2, 4, false, false) }
